@@ -11,6 +11,7 @@ Mirrors, statement by statement and in the same arithmetic order,
 * `ExplicitEulerIntegratorRep::attemptDAEStep`         → `eulerStep`   (unconstrained system)
 * `SemiExplicitEulerIntegratorRep::attemptDAEStep`     → `seeStep`     (unconstrained system)
 * `SemiExplicitEuler2IntegratorRep::attemptDAEStep`    → `see2Step`    (unconstrained system)
+* `VerletIntegratorRep::attemptDAEStep`                → `verletStep`  (unconstrained system, incl. the functional iteration)
 * `IntegratorRep::interpolateOrder3`                   → `interpolateOrder3`
 * the linear interpolation of the Euler variants' `createInterpolatedState` → `interpolateLinear`
 * `IntegratorRep::calcErrorNorm` / `calcRelativeScaling` / `Vector::weightedNormRMS/Inf` → `errNorm` …
@@ -338,6 +339,56 @@ def takeOneStep {S : Type} (pow : K → K → K) (acc : K) (umin umax : Option K
 
 end Controller
 
+/-! ## Velocity Verlet (`VerletIntegratorRep::attemptDAEStep`, unconstrained system) -/
+section Verlet
+variable {K V : Type} [Add K] [Sub K] [Mul K] [Div K] [Neg K] [NatCast K]
+variable [LT K] [LE K] [DecidableLT K] [DecidableLE K]
+variable [Add V] [Sub V] [HSMul K V V]
+
+local notation "‹" n "›" => ((n : Nat) : K)
+
+/-- `tol = std::min(Real(1e-4), Real(0.1)*getAccuracyInUse())` -/
+def verletTol (acc : K) : K := cmin (‹1› / ‹10000›) ((‹1› / ‹10›) * acc)
+
+/-- the functional iteration refining `u` and `z` with the implicit trapezoid rule:
+`for (i = 0; !converged && i < 10; ++i)`.  `deriv u z` realizes the state `(t1, q1, u, z)` and returns
+`(qdot, udot, zdot)`; `d` holds the derivatives of the current `(u, z)`; `prev` is `prevChange`
+(`none` = Infinity).  `vnorm` is `Vector::norm()`, `tiny` is `TinyReal`.
+Returns `(u, z, derivatives, converged)`. -/
+def verletIter (vnorm : V → K) (tiny tol : K) (deriv : V → V → V × V × V) (h : K) (u0 z0 udot0 zdot0 : V) :
+    Nat → Nat → Option K → V → V → V × V × V → V × V × (V × V × V) × Bool
+  | 0, _, _, u, z, d => (u, z, d, false)
+  | fuel + 1, i, prev, u, z, d =>
+    let un := u0 + (h / ‹2›) • (udot0 + d.2.1)
+    let zn := z0 + (h / ‹2›) • (zdot0 + d.2.2)
+    let dn := deriv un zn
+    let convU := vnorm (un - u) / (vnorm u + tiny)
+    let convZ := vnorm (zn - z) / (vnorm z + tiny)
+    let change := cmax convU convZ
+    if change ≤ tol then (un, zn, dn, true)
+    else if (decide (1 < i) && (match prev with | some p => decide (p < change) | none => false)) then (un, zn, dn, false)
+    else verletIter vnorm tiny tol deriv h u0 z0 udot0 zdot0 fuel (i + 1) (some change) un zn dn
+
+/-- `VerletIntegratorRep::attemptDAEStep` without constraints / prescribed motion.
+`deriv t q u z = (qdot, udot, zdot)`.  Returns `((q1,u1,z1), (qErr,uErr,zErr), converged)`; `errOrder = 3`. -/
+def verletStep (vnorm : V → K) (tiny acc : K) (deriv : K → V → V → V → V × V × V) (t0 t1 : K)
+    (q0 u0 z0 qdot0 udot0 zdot0 qdotdot0 : V) : (V × V × V) × (V × V × V) × Bool :=
+  let h := t1 - t0
+  let q1 := q0 + h • qdot0 + (h * h / ‹2›) • qdotdot0
+  let u1e := u0 + h • udot0
+  let z1e := z0 + h • zdot0
+  let d0 := deriv t1 q1 u1e z1e
+  let r := verletIter vnorm tiny (verletTol acc) (deriv t1 q1) h u0 z0 udot0 zdot0 10 0 none u1e z1e d0
+  let u := r.1
+  let z := r.2.1
+  let qdot1 := r.2.2.1.1
+  let qErr := q0 + (h / ‹2›) • (qdot0 + qdot1) - q1
+  let uErr := h • (u1e - u)
+  let zErr := h • (z1e - z)
+  ((q1, u, z), (qErr, uErr, zErr), r.2.2.2)
+
+end Verlet
+
 /-! ## Executable vector type for the driver: lists with element-wise operations -/
 structure LV (K : Type) where
   xs : List K
@@ -349,6 +400,8 @@ instance : Add (LV K) := ⟨fun a b => ⟨List.zipWith (· + ·) a.xs b.xs⟩⟩
 instance : Sub (LV K) := ⟨fun a b => ⟨List.zipWith (· - ·) a.xs b.xs⟩⟩
 instance : HSMul K (LV K) (LV K) := ⟨fun s a => ⟨a.xs.map (s * ·)⟩⟩
 def abs [Neg K] [NatCast K] [LT K] [DecidableLT K] (a : LV K) : LV K := ⟨a.xs.map cabs⟩
+/-- `Vector::norm()`: `sqrt(Σ xᵢ²)`, summed from 0 in index order -/
+def norm [NatCast K] (sqrt : K → K) (a : LV K) : K := sqrt (a.xs.foldl (fun s x => s + x * x) ((0 : Nat) : K))
 end LV
 
 end C20
